@@ -354,6 +354,43 @@ func (c *Ctx) RangeEnds(ob *core.Obligation, reachKey string, roots []*ssa.Funct
 		if !usesStart && !usesStop {
 			continue
 		}
+		// a helper that is handed the two tokens and builds the range from them
+		for _, ci := range core.Calls(fn) {
+			h := ci.Common().StaticCallee()
+			if h == nil || !c.P.InModule(h) || len(h.Blocks) == 0 {
+				continue
+			}
+			sum := c.rangeEndParams(h, charF, lineF)
+			if sum == nil {
+				continue
+			}
+			args := core.CallArgs(ci.Common())
+			for _, role := range []string{"Start", "End"} {
+				for _, pi := range sum[role] {
+					if pi >= len(args) {
+						continue
+					}
+					c.Touch(fn)
+					c.Touch(h)
+					org := map[string]bool{}
+					tokenOrigins(args[pi], org, map[ssa.Value]bool{})
+					key := "ends:" + core.SSAName(fn) + ":" + role + ".via:" + h.Name()
+					pos := c.P.Pos(ci.Pos())
+					want, other := "GetStart", "GetStop"
+					if role == "End" {
+						want, other = "GetStop", "GetStart"
+					}
+					switch {
+					case org[other]:
+						ob.Fail(key, pos, role+" of the range is taken from the "+other+"() token")
+					case !org[want]:
+						ob.Fail(key, pos, role+" of the range does not derive from the "+want+"() token of the context")
+					default:
+						ob.Pass(key, pos, role+" <- "+want+"() (through "+h.Name()+")")
+					}
+				}
+			}
+		}
 		for _, b := range fn.Blocks {
 			for _, in := range b.Instrs {
 				st, ok := in.(*ssa.Store)
@@ -393,12 +430,64 @@ func (c *Ctx) RangeEnds(ob *core.Obligation, reachKey string, roots []*ssa.Funct
 	}
 }
 
+// rangeEndParams: h builds a Range whose Start derives from some of its parameters and whose
+// End from others (a helper handed the first and the last token): role -> parameter indices.
+// nil when h is not of that shape (also when one parameter feeds both ends: the range of a
+// single token).
+func (c *Ctx) rangeEndParams(h *ssa.Function, charF, lineF *types.Var) map[string][]int {
+	for _, ci := range core.Calls(h) {
+		if o := core.CalleeObj(ci.Common()); o != nil && (o.Name() == "GetStart" || o.Name() == "GetStop") {
+			return nil
+		}
+	}
+	sum := map[string][]int{}
+	used := map[int]string{}
+	for _, b := range h.Blocks {
+		for _, in := range b.Instrs {
+			st, ok := in.(*ssa.Store)
+			if !ok {
+				continue
+			}
+			f := core.FieldOf(st.Addr)
+			role := ""
+			if f == charF || f == lineF {
+				role = positionRole(st.Addr)
+			} else if fa, ok := st.Addr.(*ssa.FieldAddr); ok && f != nil && ownerName(fa) == "Range" && (f.Name() == "Start" || f.Name() == "End") {
+				role = f.Name()
+			}
+			if role != "Start" && role != "End" {
+				continue
+			}
+			org := map[string]bool{}
+			tokenOrigins(st.Val, org, map[ssa.Value]bool{})
+			for i, p := range h.Params {
+				if !org["param:"+p.Name()] {
+					continue
+				}
+				if r, had := used[i]; had && r != role {
+					return nil
+				}
+				if _, had := used[i]; !had {
+					used[i] = role
+					sum[role] = append(sum[role], i)
+				}
+			}
+		}
+	}
+	if len(sum["Start"]) == 0 || len(sum["End"]) == 0 {
+		return nil
+	}
+	return sum
+}
+
 func tokenOrigins(v ssa.Value, into map[string]bool, seen map[ssa.Value]bool) {
 	if seen[v] {
 		return
 	}
 	seen[v] = true
 	switch x := v.(type) {
+	case *ssa.Parameter:
+		into["param:"+x.Name()] = true
 	case *ssa.Call:
 		if o := core.CalleeObj(&x.Call); o != nil && (o.Name() == "GetStart" || o.Name() == "GetStop") {
 			into[o.Name()] = true
